@@ -177,6 +177,13 @@ struct BigFamily {
         if (rc == URI_SUCCESS) { if ((double)req < true_min || req < 0) ctx.violation("", enc, fmt("key/value lengths %s %s: success with charsRequired=%d although the text needs at least %.0f characters (sum wrapped)", desc.c_str(), fillsel ? "of line feeds" : "of 'a'", req, true_min)); }
         else if (rc == URI_ERROR_OUTPUT_TOO_LARGE) { lc.big_refused++; if (worst <= (double)INT_MAX / 2) ctx.violation("", enc, fmt("lengths %s refused although the worst case %.0f is far below INT_MAX", desc.c_str(), worst)); }
         else ctx.violation("", enc, fmt("unexpected rc=%d", rc));
+        // the writing path with the same list and a 16-character buffer that ends at an inaccessible page: it has to be refused (or to
+        // fit), whatever the item lengths do to the size arithmetic
+        { static OutBuf small(1); char *dst = (char *)small.end_minus(16); int written = -7;
+          if ((sig = GUARD_ENTER()) != 0) { ctx.violation("", enc, fmt("%s: uriComposeQueryExA wrote beyond its 16-character buffer for lengths %s", signame(sig), desc.c_str())); return true; }
+          int rc2 = uriComposeQueryExA(dst, &n[0], 16, &written, URI_TRUE, nb); GUARD_LEAVE(); lc.big++;
+          if (rc2 == URI_SUCCESS) { if (true_min > 15 || written < 1 || written > 16) ctx.violation("", enc, fmt("lengths %s: composing into 16 characters reports success (charsWritten=%d)", desc.c_str(), written)); }
+          else if (rc2 != URI_ERROR_OUTPUT_TOO_LARGE) ctx.violation("", enc, fmt("lengths %s: composing into 16 characters returns %d", desc.c_str(), rc2)); }
         return true;
     }
 };
